@@ -415,6 +415,90 @@ def C15_no_timer_during_pyopenssl_handshake():
             del loop.call_later
     return asyncio.run(go())
 
+class _RecTransport:
+    def __init__(self): self.written = []; self.closed = False
+    def write(self, b): self.written.append(bytes(b))
+    def close(self): self.closed = True
+    def is_closing(self): return self.closed
+    def get_extra_info(self, name, default=None): return default
+
+def _proxy_relay(upstream_bytes):
+    """Real ProxyHandler + real GeminiClient (create_connection replaced) behind a real GeminiServerProtocol."""
+    from nauyaca.server.proxy import ProxyHandler
+    from nauyaca.server.protocol import GeminiServerProtocol
+    async def go():
+        loop = asyncio.get_running_loop()
+        async def fake_cc(factory, host=None, port=None, ssl=None, server_hostname=None, **kw):
+            proto = factory(); tr = _RecTransport(); proto.connection_made(tr)
+            def fin():
+                try: proto.data_received(upstream_bytes); proto.connection_lost(None)
+                except Exception as e: proto.connection_lost(e)
+            loop.call_soon(fin)
+            return tr, proto
+        loop.create_connection = fake_cc
+        try:
+            h = ProxyHandler("gemini://up.example", prefix="/", strip_prefix=False, timeout=2)
+            p = GeminiServerProtocol(h.handle); t = FakeTransport(); p.connection_made(t)
+            p.data_received(b"gemini://front.example/x\r\n")
+            for _ in range(20): await asyncio.sleep(0)
+            if p.timeout_handle: p.timeout_handle.cancel()
+            return t.wire()
+        finally:
+            del loop.create_connection
+    return asyncio.run(go())
+
+@witness
+def C18_non_utf8_text_body_reencoded():
+    up = b"20 text/plain; charset=iso-8859-1\r\ncaf\xe9"
+    return _proxy_relay(up) != up
+
+@witness
+def C18_malformed_upstream_header_relayed():
+    """bare LF in the meta, or a status spelled '+20', are malformed: the proxy must answer 43"""
+    a = _proxy_relay(b"20 text/plain\nX-Injected: 1\r\nbody")
+    b = _proxy_relay(b"+20 text/plain\r\nbody")
+    return not a.startswith(b"43 ") or not b.startswith(b"43 ")
+
+@witness
+def C11_request_sent_before_pin_check():
+    """Pinned host presents a different certificate: the impostor must not receive the request line."""
+    from nauyaca.client.session import GeminiClient
+    from nauyaca.security.tofu import TOFUDatabase, CertificateChangedError
+    from nauyaca.security.certificates import generate_self_signed_cert
+    from cryptography import x509
+    from cryptography.hazmat.primitives import serialization
+    from pathlib import Path
+    d = tempfile.mkdtemp(dir="/var/tmp")
+    try:
+        pem_a, _ = generate_self_signed_cert(hostname="a", key_size=2048, valid_days=3)
+        pem_b, _ = generate_self_signed_cert(hostname="b", key_size=2048, valid_days=3)
+        cert_a = x509.load_pem_x509_certificate(pem_a); cert_b = x509.load_pem_x509_certificate(pem_b)
+        db = TOFUDatabase(Path(d) / "t.db"); db.trust("victim.example", 1965, cert_a)
+        c = GeminiClient(tofu_db_path=Path(d) / "t.db", timeout=2)
+        seen = []
+        async def go():
+            loop = asyncio.get_running_loop()
+            async def fake_cc(factory, host=None, port=None, ssl=None, server_hostname=None, **kw):
+                proto = factory(); tr = _RecTransport()
+                der = cert_b.public_bytes(serialization.Encoding.DER)
+                class S:
+                    def getpeercert(self, binary_form=False): return der
+                tr.get_extra_info = lambda name, default=None: S() if name == "ssl_object" else default
+                seen.append(tr)
+                proto.connection_made(tr)
+                return tr, proto
+            loop.create_connection = fake_cc
+            try:
+                await c.get("gemini://victim.example/secret?token=abc")
+                return "accepted"
+            except CertificateChangedError:
+                return "changed"
+            finally:
+                del loop.create_connection
+        r = asyncio.run(go())
+        return r != "changed" or any(t.written for t in seen)
+    finally: shutil.rmtree(d)
+
 # MAIN
 if __name__ == "__main__":
     names = sys.argv[1:] or sorted(W)
